@@ -5,11 +5,13 @@ open Sdc Sdc.Eventing
 /-!
 ops (one per line; strings = code points joined by `,`, the empty string is `e`):
   `cfg <path|ref> <maxDur> <maxErr> <checkDialect 0|1>`                       -> `ok`   (also resets the state)
-  `sub <notifyTo> <endTo|-> <filter|none|-> <dialectOk 0|1> <expires|->`      -> `subscribed <id> <granted>` | `rejected`
+  `sub <notifyTo> <endTo|-> <filter|none|-> <dialectOk 0|1> <expires|-> <notifyRef 0|1> <endRef 0|1>`
+                                                                              -> `subscribed <id> <granted>` | `rejected`
+        notifyRef / endRef: NotifyTo / EndTo came with reference parameters
         filter = entries joined by `;`, `none` = no Filter element, `-` = no entry
   `renew <ref|-> <path|-> <expires|->` | `status <ref|-> <path|->` | `unsub <ref|-> <path|->`
                                                                               -> `remaining <r>` | `unsubscribed` | `fault`
-  `notify <action> <ov>` | `stop <0|1> <ov>`                                  -> `sent <n|e>:<sub>:<addr>:<outcome> …`
+  `notify <action> <ov>` | `stop <0|1> <ov>`                                  -> `sent <n|e>:<sub>:<addr>:<outcome>:<refs n|e|-> …`
         ov = per-delivery outcomes observed on the implementation `sub:outcome,…` or `-` (then the standing `mode` of the address)
   `tick <dt>` | `mode <addr> <outcome>` | `hk`                                -> `ok`
 every answer is followed by ` | alive=<ids> known=<ids>`: the reference monitor's view after the op (fed with the model's answers)
@@ -47,7 +49,7 @@ def overrides? (w : String) : Option (List (Nat × Outcome)) :=
     | _ => none)
 
 def Msg.str (m : Msg) : String :=
-  (match m.kind with | .notification _ => "n" | .subscriptionEnd => "e") ++ s!":{m.sub}:{m.addr}:{m.outcome.str}"
+  (match m.kind with | .notification _ => "n" | .subscriptionEnd => "e") ++ s!":{m.sub}:{m.addr}:{m.outcome.str}:" ++ (match m.refs with | .none => "-" | .notify => "n" | .endTo => "e")
 
 def Out.str : Out → String
   | .subscribed i g => s!"subscribed {i} {g}"
@@ -60,8 +62,8 @@ def Out.str : Out → String
 
 def parseOp (ws : List String) : Option Op :=
   match ws with
-  | ["sub", nt, et, f, d, e] => do
-    pure (.subscribe (← nt.toNat?) (← optNat? et) (← filter? f) (← bool? d) (← optNat? e))
+  | ["sub", nt, et, f, d, e, nr, er] => do
+    pure (.subscribe (← nt.toNat?) (← optNat? et) (← filter? f) (← bool? d) (← optNat? e) (← bool? nr) (← bool? er))
   | ["renew", r, p, e] => do pure (.renew (← optNat? r, ← optNat? p) (← optNat? e))
   | ["status", r, p] => do pure (.getStatus (← optNat? r, ← optNat? p))
   | ["unsub", r, p] => do pure (.unsubscribe (← optNat? r, ← optNat? p))
